@@ -17,7 +17,7 @@ func chunkCheck(h *rt.H, c *codec, doc []byte, cuts []bool) {
 	errA := c.parse(cloneBytes(doc), &a)
 
 	var b ev.Recorder
-	_, errB := c.parseReader(&chunkReader{doc: cloneBytes(doc), cuts: cuts}, &b)
+	_, errB := c.parseReader(newChunkReader(h, doc, cuts), &b)
 	h.Assert("verdict", (errA == nil) == (errB == nil))
 	if errA == nil && errB == nil {
 		h.Assert("events", ev.Equal(a.Events, b.Events))
